@@ -141,3 +141,31 @@ Proof.
   apply Forall_map. apply Forall_forall. intros l _. unfold nocr, with_nl. cbn [txt nl].
   destruct (nl l); discriminate.
 Qed.
+Lemma gla_nocr : forall s acc t n r e,
+  get_line_aux s acc = Some (t, n, r, e) -> n = LF -> forall a, rev t <> 13%N :: a.
+Proof.
+  induction s as [|c s IH]; intros acc t n r e H Hn a; cbn [get_line_aux] in H.
+  - destruct acc; [discriminate|]. inversion H; subst. discriminate.
+  - destruct (N.eqb c 10).
+    + destruct acc as [|x acc].
+      * inversion H; subst. cbn. discriminate.
+      * destruct (N.eq_dec x 13) as [->|Hx].
+        -- inversion H; subst. discriminate.
+        -- assert (E : Some (rev (x :: acc), LF, s, false) = Some (t, n, r, e)).
+           { destruct x as [|p]; [exact H|]. do 4 (destruct p as [p|p|]; try exact H). all: try (exfalso; apply Hx; reflexivity). }
+           inversion E; subst. change (rev (rev (x :: acc)) <> 13%N :: a). rewrite rev_involutive. intros [= ->]. apply Hx. reflexivity.
+    + apply (IH _ _ _ _ _ H Hn a).
+Qed.
+
+Lemma split_fuel_nocr : forall fuel s, Forall nocr (split_lines_fuel fuel s).
+Proof.
+  induction fuel as [|f IH]; intros s; [constructor|]. cbn [split_lines_fuel]. unfold get_line.
+  destruct (get_line_aux s []) as [[[[t n] r] e]|] eqn:G; [|constructor].
+  constructor.
+  - unfold nocr. cbn [txt nl]. intros En a. apply (gla_nocr _ _ _ _ _ _ G En a).
+  - destruct e; [constructor|apply IH].
+Qed.
+
+(* every file read meets the hypotheses of split_lines_of_written *)
+Theorem split_lines_nocr s : Forall nocr (split_lines s).
+Proof. apply split_fuel_nocr. Qed.
